@@ -70,4 +70,7 @@ func runC02(r *Run) {
 		}
 	}
 	r.ExploreSpecs(ts)
+	// one collision group grown to 258 keys (shared first digest / first two digests / all digests) under the default
+	// collision limit: dictionary semantics throughout, incl. the one refusal the limit prescribes
+	r.RunTaskGroup("one collision group grown to 258 keys at the default limit", "colldeep", collDeepArgs())
 }
